@@ -298,7 +298,7 @@ package callbacks
 //@   match call callbacks.saveAssociations
 //@   in callbacks.SaveBeforeAssociations$1
 //@   min-sites 2
-//@   assert deduplicated-records: defined(distinctElems) ==> arg2 == distinctElems [C13]
+//@   assert deduplicated-records: !defined(rv) ==> arg2 == distinctElems [C13]
 //@ # ---------- C16: the upsert of all columns treats `default:NULL` in any letter case as no default ----------
 //@ site update-all-null-default-any-case
 //@   match call strings.EqualFold
